@@ -56,6 +56,7 @@ type FuncContract struct {
 	Appends      []*AppendClause
 	AllowGlobals bool      // frame: package-level state (the atomic id counter) may change
 	InlineCalls  bool      // calls to library functions are executed, not abstracted by their contracts (lemma functions)
+	Recurse      int       // lemma functions: a function already on the inline stack may be inlined again this many times (nested containers)
 	Unroll       int       // lemma functions: loops of inlined callees are unrolled up to this many header visits, with an unwinding obligation
 	ModReach     bool      // frame: everything reachable from the receiver may change (decoders fill owned buffers)
 	Auto         bool      // synthesised for an implementer of a contracted interface
@@ -444,6 +445,7 @@ func (db *ContractDB) parseFile(pkg, file string) {
 	var curF *FuncContract
 	var curLoop *LoopContract
 	var curI *IfaceContract
+	alsoMode := false
 	for i, raw := range lines {
 		ln := fmt.Sprintf("%s:%d", shortFile(file), i+1)
 		t := strings.TrimSpace(raw)
@@ -453,6 +455,7 @@ func (db *ContractDB) parseFile(pkg, file string) {
 				if t == "" {
 					curF, curLoop = nil, nil
 					curI = nil
+					alsoMode = false
 				}
 			}
 			continue
@@ -483,6 +486,38 @@ func (db *ContractDB) parseFile(pkg, file string) {
 				return nil
 			}
 			return &Clause{Text: text, Expr: e, Props: cprops, Line: ln}
+		}
+		if kw == "also" {
+			// also <func header>: further clauses (ensures, loop invariants) for a function that already has a
+			// contract block (generated layout contracts); parameter/result names must be the block's
+			fc := db.parseFuncHeader(pkg, rest, ln, false)
+			curLoop, curI = nil, nil
+			curF = nil
+			if fc == nil {
+				continue
+			}
+			fn, err := db.L.findFunc(pkg, fc.Ref)
+			if err != nil {
+				db.errf(ln, "contract drift: %v", err)
+				continue
+			}
+			old := db.Funcs[fn]
+			if old == nil {
+				db.errf(ln, "also: %s has no contract block yet (files are read in name order)", fc.Ref)
+				continue
+			}
+			if strings.Join(old.Params, ",") != strings.Join(fc.Params, ",") || (len(fc.Results) > 0 && strings.Join(old.Results, ",") != strings.Join(fc.Results, ",")) {
+				db.errf(ln, "also: %s must bind the names of the block at %s: (%s) (%s)", fc.Ref, old.Line, strings.Join(old.Params, ", "), strings.Join(old.Results, ", "))
+				continue
+			}
+			for _, p := range fc.Props {
+				if !hasProp(old.Props, p) {
+					old.Props = append(old.Props, p)
+				}
+			}
+			curF = old
+			alsoMode = true
+			continue
 		}
 		isDecoder := kw == "decoder" || kw == "elemdecoder"
 		isElem := kw == "elemdecoder"
@@ -609,8 +644,12 @@ func (db *ContractDB) parseFile(pkg, file string) {
 					db.errf(ln, "bad loop ordinal")
 					continue
 				}
-				curLoop = &LoopContract{}
-				curF.Loops[n] = curLoop
+				if ex := curF.Loops[n]; ex != nil && alsoMode {
+					curLoop = ex
+				} else {
+					curLoop = &LoopContract{}
+					curF.Loops[n] = curLoop
+				}
 			case "invariant":
 				if curLoop == nil {
 					db.errf(ln, "invariant outside loop")
@@ -643,6 +682,13 @@ func (db *ContractDB) parseFile(pkg, file string) {
 				curF.InlineCalls = true
 			case "modreach":
 				curF.ModReach = true
+			case "recurse":
+				n, e := strconv.Atoi(strings.TrimSpace(rest))
+				if e != nil || n < 1 {
+					db.errf(ln, "recurse <positive count>")
+					continue
+				}
+				curF.Recurse = n
 			case "unroll":
 				n, e := strconv.Atoi(strings.TrimSpace(rest))
 				if e != nil || n < 1 {
